@@ -9,9 +9,15 @@ line: C09 hist <op> <op> ...        one whole history per line (TAB separated op
   K|<fn>|<dep>|<json [args, kwargs]>       direct call of a memoised helper (tokenparser, preprocess_tokens,
                                            parse_single_token, parse_name_length_token, parse_single_struct_token)
   P|<dep>|<json fmt>|<json values>|<json kwargs>      bitstring.pack(fmt, *values, **kwargs)
-  U|<dep>|<json fmt>|<bits>|<mode>|<json kwargs>      unpack / readlist / read / peeklist of a format on given bits
+  U|<dep>|<json fmt>|<bits>|<mode>|<json kwargs>      unpack / readlist / read / peeklist of a format on given bits; list
+                                           items may be strings, integers and {"d": [token, length, scale]} = a Dtype OBJECT
   D|<dep>|<json [token, length, scale, mode]>          Dtype(token, length, scale)  (mode 'array': Array(token).dtype)
   A|<dep>|<name>|<json values>             Array(Dtype(name, scale='auto'), values)   (builds Array._largest_values once)
+  N|<dep>|<json [route, cls, name, length, value]>
+        construct from a (dtype, value) pair without going through a string: kw cls(name<length>=value), kwl
+        cls(name=value, length=length), prop a = cls(); a.name<length> = value, propl a = cls(<length zero bits>);
+        a.name = value (property assignment on a mutable object), pack / packkw pack('name:length', value) /
+        pack('name:length=v', v=value) (the BitStream pack returns), build Dtype(name, length).build(value)
   B|<cls>|<attr>|<i>|<json params>         a call dispatched through a class attribute that set_lsb0 re-binds, on the
                                            current value of the object made at step i (or a fixed operand)
   M|<i>|<kind>                             mutate the object made at step i (if it is a mutable bitstring)
@@ -368,8 +374,23 @@ def _p_call(fmt_j, vals_j, kw_j):
     return bitstring.pack(json.loads(fmt_j), *json.loads(vals_j), **json.loads(kw_j))
 
 
+def _fmt_items(fmt):
+    """A list format may hold Dtype objects: {"d": [token, length, scale]}."""
+    if not isinstance(fmt, list):
+        return fmt
+    out = []
+    for it in fmt:
+        if isinstance(it, dict):
+            token, length, scale = it["d"]
+            sc = _scale_of(scale)
+            out.append(Dtype(token, length, scale=sc) if length is not None else Dtype(token, scale=sc))
+        else:
+            out.append(it)
+    return out
+
+
 def _u_call(fmt_j, bits, mode, kw_j):
-    fmt, kw = json.loads(fmt_j), json.loads(kw_j)
+    fmt, kw = _fmt_items(json.loads(fmt_j)), json.loads(kw_j)
     if mode == "unpack":
         return Bits(bin=unwire(bits)).unpack(fmt, **kw)
     s = ConstBitStream(bin=unwire(bits))
@@ -380,6 +401,45 @@ def _u_call(fmt_j, bits, mode, kw_j):
     if mode == "read":
         return [s.read(fmt), s.pos]
     raise ValueError(mode)
+
+
+def _n_value(v):
+    if isinstance(v, dict):
+        if "bits" in v:
+            return Bits(bin=v["bits"])
+        if "bytes" in v:
+            return bytes.fromhex(v["bytes"])
+        if "f" in v:
+            return float.fromhex(v["f"])
+    return v
+
+
+def _n_call(arg):
+    route, cls, name, length, value = json.loads(arg)
+    C = CLASSES[cls]
+    v = _n_value(value)
+    attr = name + (str(length) if length is not None else "")
+    token = name + (":%d" % length if length is not None else "")
+    if route == "kw":
+        return C(**{attr: v})
+    if route == "kwl":
+        return C(**{name: v}) if length is None else C(**{name: v, "length": length})
+    if route == "prop":
+        a = C()
+        setattr(a, attr, v)
+        return a
+    if route == "propl":
+        mult = 8 if name == "bytes" else 1
+        a = C() if length is None else C(length * mult)
+        setattr(a, name, v)
+        return a
+    if route == "pack":
+        return bitstring.pack(token, v)
+    if route == "packkw":
+        return bitstring.pack(token + "=v", v=v)
+    if route == "build":
+        return (Dtype(name, length) if length is not None else Dtype(name)).build(v)
+    raise ValueError(route)
 
 
 def _d_call(arg):
@@ -467,7 +527,9 @@ def run_op(f, operand=None):
         if k == "P":
             r = _p_call(f[2], f[3], f[4]); return "ok " + wire(r), r
         if k == "U":
-            r = _u_call(f[2], f[3], f[4], f[5]); return "ok " + canon(r), None
+            r = _u_call(f[2], f[3], f[4], f[5]); return "ok " + canon_t(r), None
+        if k == "N":
+            r = _n_call(f[2]); return "ok " + wire(r), r
         if k == "D":
             r = _d_call(f[2]); return "ok " + canon_dtype(r, True), None
         if k == "A":
@@ -481,7 +543,9 @@ def run_op(f, operand=None):
     raise ValueError("bad op %r" % (f,))
 
 
-MUT_KINDS = ("invert", "append1", "clear", "set0", "reverse", "overwrite", "ror", "setitem", "ilshift", "delitem", "byteswap")
+MUT_KINDS = ("invert", "append1", "clear", "set0", "reverse", "overwrite", "ror", "setitem", "ilshift", "delitem", "byteswap",
+             "iadd3", "prepend1", "insert1")
+MUT_ON_EMPTY = ("append1", "iadd3", "prepend1", "insert1")      # these change an EMPTY bitstring too
 
 
 def _mutate(x, kind):
@@ -508,6 +572,12 @@ def _mutate(x, kind):
             del x[0]
         elif kind == "byteswap":
             x.byteswap()
+        elif kind == "iadd3":
+            x += Bits(bin="101")
+        elif kind == "prepend1":
+            x.prepend(Bits(bin="1"))
+        elif kind == "insert1":
+            x.insert(Bits(bin="1"), 0)
     except Exception:
         pass
 
@@ -951,6 +1021,8 @@ MALFORMED = ["uint:8=256", "0xg", "foo=1", "uint:8", "2*(0b1", "ue=-1", "uie=-5"
 def gen_string(rng, kinds):
     """(dep, text, nested) for an S op. kinds: allowed dependency classes among '-', 'l', 'm', 'lm', 'e', 'n'."""
     k = rng.choice(kinds)
+    if k == "-" and rng.random() < 0.04:
+        return "-", rng.choice(TOKENLESS) + " " * rng.choice([0, 0, 1, 2, 3]), []
     if k == "e" and rng.random() < 0.3:
         # a token NAME in the wrong case: raises, but collides with a valid string under a case-folding cache key
         t = gen_plain_token(rng) if rng.random() < 0.6 else gen_golomb_token(rng)
@@ -1119,6 +1191,43 @@ def gen_auto(rng):
     return name, J([float(v).hex() for v in vals])
 
 
+# (dtype name, length or None, value) — every registered dtype name and alias that can be set from a value
+def _F(x):
+    return {"f": float(x).hex()}
+
+
+N_SAMPLES = [("uint", 8, 5), ("uint", 13, 300), ("int", 8, -5), ("uintbe", 16, 300), ("uintle", 16, 300), ("uintne", 16, 300),
+             ("intbe", 16, -3), ("intle", 16, -3), ("intne", 16, -3), ("hex", 8, "a5"), ("hex", None, "a5c"), ("bin", None, "10110"),
+             ("bin", 5, "10110"), ("oct", 6, "17"), ("oct", None, "175"), ("float", 32, _F(1.5)), ("floatle", 32, _F(1.5)),
+             ("floatbe", 64, _F(-0.25)), ("floatne", 16, _F(2.0)), ("bfloat", None, _F(1.5)), ("bfloatle", None, _F(2.5)),
+             ("bfloatbe", None, _F(-3.0)), ("bfloatne", None, _F(0.5)), ("bits", 4, {"bits": "0101"}), ("bits", None, {"bits": "110"}),
+             ("bytes", 2, {"bytes": "6162"}), ("bytes", None, {"bytes": "7a"}), ("bool", None, True), ("bool", None, False),
+             ("bool", None, 1), ("bool", None, 0), ("bool", 1, True), ("bool", None, "True"), ("se", None, -3), ("ue", None, 3),
+             ("sie", None, -3), ("uie", None, 3), ("p3binary", None, _F(1.5)), ("p4binary", None, _F(1.5)), ("e4m3mxfp", None, _F(1.5)),
+             ("e4m3mxfp", None, _F(1000.0)), ("e5m2mxfp", None, _F(1.5)), ("e5m2mxfp", None, _F(1e6)), ("e3m2mxfp", None, _F(1.5)),
+             ("e2m3mxfp", None, _F(1.5)), ("e2m1mxfp", None, _F(1.5)), ("e8m0mxfp", None, _F(4.0)), ("mxint", None, _F(1.5)),
+             ("i", 8, -5), ("u", 8, 5), ("h", 8, "a5"), ("o", 6, "17"), ("b", 5, "10110"), ("f", 32, _F(1.5))]
+N_ROUTES = ("kw", "kwl", "prop", "propl", "pack", "packkw", "build")
+
+
+def n_op(route, cls, sample):
+    name, length, value = sample
+    return "N|-|" + J([route, cls, name, length, value])
+
+
+def n_string(sample):
+    """The same (dtype, value) as a token string, where the value has a textual form (else None)."""
+    name, length, value = sample
+    if isinstance(value, dict):
+        if "f" not in value:
+            return None
+        value = repr(float.fromhex(value["f"]))
+    tok = name + (":%d" % length if length is not None else "")
+    return "%s=%s" % (tok, value)
+
+
+TOKENLESS = ["", " ", ",", " , ", ",,", "  ", ", ", " ,"]
+
 BATTERY = [("Bits", "_find"), ("Bits", "_rfind"), ("Bits", "_findall"), ("BitArray", "_ror"), ("BitArray", "_rol"),
            ("BitArray", "_append"), ("BitArray", "_prepend"), ("BitStore", "__setitem__"), ("BitStore", "__delitem__"),
            ("BitStore", "getindex"), ("BitStore", "getslice"), ("BitStore", "getslice_withstep"), ("BitStore", "invert")]
@@ -1181,6 +1290,7 @@ def history(rng, length, focus, flips, safe):
                "newtok": dict(S=0.1, K=0.05, P=0.03, U=0.03, D=0.7, A=0.02, B=0.05, M=0.02),
                "create": dict(S=0.1, K=0.05, P=0.03, U=0.03, D=0.7, A=0.02, B=0.05, M=0.02),
                "mixed":  dict(S=0.3, K=0.15, P=0.1, U=0.1, D=0.15, A=0.03, B=0.1, M=0.05)}[focus]
+    weights = dict(weights, N=0.06 if focus != "mixed" else 0.12)
     kfocus = {"tok1": "parse_single_token", "nl": "parse_name_length_token", "struct": "parse_single_struct_token"}.get(focus)
     kinds_s = ["-"] * 5 + ["l"] * 3 + ["m"] * 3 + ["lm", "e", "e", "n"]
     names, cum = list(weights), []
@@ -1282,10 +1392,71 @@ def history(rng, length, focus, flips, safe):
             else:
                 fmt, vals = gen_format(rng, stress)
                 op = "P|-|%s|%s|{}" % (J(fmt), J(vals))
+            if rng.random() < 0.4:
+                obj_steps.append(len(ops))          # the BitStream pack() returns can be mutated later
             pool_other.append(op); ops.append(op)
+        elif k == "N":
+            sample = rng.choice(N_SAMPLES)
+            if rng.random() < 0.3:                   # a value of its own
+                nm_, ln_, val_ = sample
+                if isinstance(val_, int) and not isinstance(val_, bool) and ln_:
+                    sample = (nm_, ln_, rng.randint(0, (1 << (ln_ - 1)) - 1))
+            cls = rng.choice(CLASS_NAMES)
+            route = rng.choice(N_ROUTES)
+            if route in ("prop", "propl") and cls not in MUTABLE:
+                cls = rng.choice(MUTABLE)
+            if rng.random() < 0.6:
+                obj_steps.append(len(ops))
+            ops.append(n_op(route, cls, sample))
+            st = n_string(sample)
+            if st is not None and rng.random() < 0.25 and sample[0] not in GOLOMB and not sample[0].startswith(("e4m3", "e5m2")):
+                ops.append(s_op(rng, "-", st, []))
         elif k == "U":
             if pool_other and rng.random() < 0.3 and any(o.startswith("U|") for o in pool_other[-50:]):
-                ops.append(rng.choice([o for o in pool_other[-50:] if o.startswith("U|")])); continue
+                prev = rng.choice([o for o in pool_other[-50:] if o.startswith("U|")])
+                f = prev.split("|")
+                if rng.random() < 0.5 and f[5] != "{}":       # same format and keyword names, other values
+                    kw = json.loads(f[5])
+                    f[5] = J({k2: (v + rng.choice([1, 4, 8]) if isinstance(v, int) else v) for k2, v in kw.items()})
+                    prev = "|".join(f)
+                elif rng.random() < 0.5 and '{"d":' in f[2]:   # same format, Dtype items with another scale
+                    fm = json.loads(f[2])
+                    for it in fm:
+                        if isinstance(it, dict):
+                            it["d"][2] = rng.choice(SCALES)
+                    f[2] = J(fm)
+                    prev = "|".join(f)
+                ops.append(prev); continue
+            r = rng.random()
+            if r < 0.22:
+                # a LIST format holding Dtype objects (with / without scale), integers and strings
+                bits = rand_bits(rng, rng.choice([32, 64, 100, 200]))
+                mode = rng.choice(["unpack", "readlist", "peeklist"])
+                items = []
+                for _ in range(rng.randint(1, 3)):
+                    q = rng.random()
+                    if q < 0.6:
+                        nm = rng.choice(["uint", "int", "uint", "float", "hex", "bits"])
+                        ln = rng.choice([16, 32, 64]) if nm == "float" else (4 * rng.randint(1, 6) if nm == "hex" else rng.randint(1, 24))
+                        form = rng.random()
+                        d = [nm, ln, rng.choice(SCALES)] if form < 0.5 else ["%s%d" % (nm, ln), None, rng.choice(SCALES)]
+                        items.append({"d": d})
+                    elif q < 0.8:
+                        items.append(rng.randint(1, 9))
+                    else:
+                        items.append(rng.choice(["uint:5", "bool", "bin:3", "hex:4"]))
+                if rng.random() < 0.5:
+                    items.append(rng.choice(["bits", "bin", "hex"]))
+                op = "U|-|%s|%s|%s|{}" % (J(items), wire(bits), mode)
+                pool_other.append(op); ops.append(op); continue
+            if r < 0.34:
+                bits = rand_bits(rng, rng.choice([64, 100, 200]))
+                mode = rng.choice(["unpack", "readlist", "peeklist"])
+                fmt2 = rng.choice(["uint:width, hex:rest", "int:a, uint:b, bits", "bin:width, uint:width", "uint:width, bits:rest, bin"])
+                kw = {"width": rng.randint(1, 16), "rest": 4 * rng.randint(1, 8), "a": rng.randint(2, 20), "b": rng.randint(1, 20)}
+                names_used = [k2 for k2 in kw if k2 in fmt2]
+                op = "U|-|%s|%s|%s|%s" % (J(fmt2), wire(bits), mode, J({k2: kw[k2] for k2 in names_used}))
+                pool_other.append(op); ops.append(op); continue
             r = rng.random()
             bits = rand_bits(rng, rng.choice([0, 7, 32, 64, 100, 200, 700]))
             mode = rng.choice(["unpack", "readlist", "peeklist"])
@@ -1509,6 +1680,95 @@ def targeted(rng, tier):
            "U|-|%s|%s|unpack|{}" % (J(f2), bits1), "K|preprocess_tokens|-|" + J([[f2], {}]), "P|-|%s|%s|{}" % (J(f1), J(v1))])
         H(["P|-|%s|%s|{}" % (J(f1), J(v1)), "P|-|%s|%s|{}" % (J([f1, f1]), J(v1 + v1)), "P|-|%s|%s|{}" % (J(f1), J(v1)),
            "P|-|%s|%s|{}" % (J([f1, f1, f1]), J(v1 + v1 + v1)), "P|-|%s|%s|{}" % (J(f1), J(v1)), "K|tokenparser|-|" + J([[f1], {}])])
+    # 10. (a) the FIRST constructor of a string is each class / route in turn — token-less, whitespace and comma-only
+    #     strings included — then the (mutable) result is changed in place and the same string is parsed again through
+    #     every route
+    def routes_of(cls):
+        return ["", "!f", "!p", "!a"] + E_ROUTES_ANY + (E_ROUTES_MUT if cls in MUTABLE else [])
+    for text in TOKENLESS[:4] + ["0b1", "0x0ff1ce5"]:
+        for first in CLASS_NAMES:
+            for kind in ("append1", "iadd3"):
+                H(["S|%s|-|%s" % (first, text), "M|0|%s" % kind, "S|Bits|-|" + text, "S|BitArray|-|" + text,
+                   "S|Bits!f|-|" + text, "S|BitStream!eadd|-|" + text, "S|ConstBitStream|-|" + text])
+    every = [(c, r) for c in CLASS_NAMES for r in routes_of(c)]
+    for first_cls in CLASS_NAMES:
+        segs = []
+        for ri, route in enumerate(routes_of(first_cls)):
+            for ki, kind in enumerate(MUT_ON_EMPTY + ("invert", "reverse")):
+                uid[0] += 1
+                u = uid[0]
+                texts = [" " * (u % 7) + "," * ((u // 7) % 5) + " " * ((u // 35) % 9) + ("," if u >= 315 else ""),
+                         "0x%x, 0b%s" % (u + 16, format(u % 32, "05b"))]
+                for text in texts:
+                    first = "S|%s%s|-|%s" % (first_cls, route, text)
+                    later = [every[(u * 7 + 5 * j) % len(every)] for j in range(7)]
+                    segs.append([first, "M|@0|%s" % kind] + ["S|%s%s|-|%s" % (c, r, text) for c, r in later] +
+                                ["S|Bits|-|" + text])
+        out.append(_join(segs))
+    # 11. (b) property assignment `a.<name> = value` (with and without a length suffix) on BitArray / BitStream for every
+    #     dtype, then mutation of `a`, then the same (dtype, value) through every route; also keyword / pack first
+    for sample in [("bool", None, True), ("bool", None, False), ("bool", 1, True), ("uint", 8, 5), ("hex", 8, "a5"), ("ue", None, 3),
+                   ("e4m3mxfp", None, _F(1.5)), ("bits", 4, {"bits": "0101"}), ("float", 32, _F(1.5))]:
+        for cls in MUTABLE:
+            for route in ("prop", "propl"):
+                ops = [n_op(route, cls, sample), "M|0|append1", n_op("kw", "Bits", sample), n_op("kw", "BitArray", sample),
+                       n_op("pack", "Bits", sample), n_op("build", "Bits", sample), n_op(route, cls, sample)]
+                if n_string(sample) is not None and sample[0] not in GOLOMB:
+                    ops.append("S|Bits|-|" + n_string(sample))
+                H(ops)
+    for cls in MUTABLE:
+        for route in ("prop", "propl", "kw", "kwl", "pack", "packkw"):
+            segs = []
+            for si, sample in enumerate(N_SAMPLES):
+                for kind in (("append1", "invert") if route in ("prop", "propl") else ("append1",)):
+                    other = MUTABLE[(MUTABLE.index(cls) + 1) % 2]
+                    seg = [n_op(route, cls, sample), "M|@0|%s" % kind, n_op("kw", "Bits", sample), n_op("kw", "BitArray", sample),
+                           n_op("kwl", "BitStream", sample), n_op("pack", "Bits", sample), n_op("packkw", "Bits", sample),
+                           n_op("build", "Bits", sample), n_op("prop", other, sample), n_op("propl", cls, sample)]
+                    st = n_string(sample)
+                    if st is not None and sample[0] not in GOLOMB and not sample[0].startswith(("e4m3", "e5m2")):
+                        seg.append("S|%s|-|%s" % (CLASS_NAMES[si % 4], st))
+                    segs.append(seg)
+            out.append(_join(segs))
+    # 12. (c) formats that are LISTS holding Dtype objects (with / without scale, differing scales) and integers,
+    #     alternating between formats that differ only in the scale
+    i2, f2, i4, i1, f1, bt, fh = ["i", 2], ["f", "0x1.0000000000000p+1"], ["i", 4], ["i", 1], ["f", "0x1.0000000000000p+0"], \
+        ["b", True], ["f", "0x1.0000000000000p-1"]
+    spairs = [(None, i2), (i2, None), (i2, f2), (f2, i2), (i2, i4), (bt, i1), (i1, f1), (fh, i2), (None, f2), (f1, None)]
+    bits40 = "1011001110001111010100110000111101011100"
+    for sa, sb in spairs:
+        da, db = {"d": ["uint8", None, sa]}, {"d": ["uint8", None, sb]}
+        H(["U|-|%s|%s|unpack|{}" % (J([da, "bits"]), bits40), "U|-|%s|%s|unpack|{}" % (J([db, "bits"]), bits40),
+           "U|-|%s|%s|unpack|{}" % (J([da, "bits"]), bits40)])
+    for mode in ("unpack", "readlist", "peeklist"):
+        segs, n = [], 2
+        for sa, sb in spairs:
+            for form in (0, 1):
+                n += 1
+                mk = (lambda sc: {"d": ["uint", n, sc]}) if form == 0 else (lambda sc: {"d": ["int%d" % n, None, sc]})
+                da, db = mk(sa), mk(sb)
+                segs.append(["U|-|%s|%s|%s|{}" % (J([da, "bits"]), bits40, mode), "U|-|%s|%s|%s|{}" % (J([db, "bits"]), bits40, mode),
+                             "U|-|%s|%s|%s|{}" % (J([da, "bits"]), bits40, mode), "U|-|%s|%s|%s|{}" % (J([da, 3, "bin"]), bits40, mode),
+                             "U|-|%s|%s|%s|{}" % (J([db, 3, "bin"]), bits40, mode), "U|-|%s|%s|%s|{}" % (J([3, db, da]), bits40, mode),
+                             "U|-|%s|%s|%s|{}" % (J([3, da, db]), bits40, mode), "U|-|%s|%s|%s|{}" % (J(["uint:%d" % n, 3, "bin"]), bits40, mode)])
+        out.append(_join(segs))
+    # 13. (d) lengths supplied by keyword: same format string, same keyword names, different values, alternating
+    kfmts = [("uint:width, hex:rest", [{"width": 4, "rest": 8}, {"width": 8, "rest": 8}, {"width": 4, "rest": 12}]),
+             ("int:a, uint:b, bits", [{"a": 3, "b": 5}, {"a": 5, "b": 3}, {"a": 3, "b": 6}]),
+             ("bin:width, uint:width", [{"width": 2}, {"width": 7}, {"width": 3}])]
+    for fmt, kws in kfmts:
+        for mode in ("unpack", "readlist", "peeklist"):
+            seq = [kws[0], kws[1], kws[0], kws[2], kws[1]]
+            H(["U|-|%s|%s|%s|%s" % (J(fmt), bits40, mode, J(kw)) for kw in seq])
+        H(["U|-|%s|%s|%s|%s" % (J(fmt), bits40, mode, J(kw)) for kw in (kws[0], kws[1]) for mode in ("readlist", "unpack", "peeklist")])
+    for fmt, seq in (("uint:width=a, hex:rest=b", [{"width": 4, "rest": 8, "a": 3, "b": "ab"}, {"width": 8, "rest": 8, "a": 3, "b": "ab"},
+                                                    {"width": 4, "rest": 12, "a": 3, "b": "abc"}, {"width": 4, "rest": 8, "a": 5, "b": "cd"}]),
+                     ("int:n, uint:n=v", [{"n": 4, "v": 3}, {"n": 9, "v": 3}, {"n": 4, "v": 7}])):
+        ops = []
+        for kw in seq + seq[:2]:
+            vals = [1] if fmt.startswith("int:n") else []
+            ops.append("P|-|%s|%s|%s" % (J(fmt), J(vals), J(kw)))
+        H(ops)
     return out
 
 
